@@ -615,6 +615,19 @@ type omap struct {
 	index   map[string]*mentry
 	nsym    int // live entries with symbolic keys
 	live    int
+	cell    value // stands for the whole map in happens-before tracking (as Go's race detector does)
+}
+
+func (m *omap) hbRead(fr *frame) {
+	if m != nil && fr.i.hb != nil {
+		fr.i.hb.onRead(fr.i, &m.cell)
+	}
+}
+
+func (m *omap) hbWrite(fr *frame) {
+	if m != nil && fr.i.hb != nil {
+		fr.i.hb.onWrite(fr.i, &m.cell)
+	}
 }
 
 func makeMap(kt types.Type) *omap {
@@ -717,6 +730,7 @@ func (m *omap) find(fr *frame, k value) *mentry {
 }
 
 func (m *omap) lookup(fr *frame, k value) (value, bool) {
+	m.hbRead(fr)
 	e := m.find(fr, k)
 	if e == nil {
 		return nil, false
@@ -726,6 +740,7 @@ func (m *omap) lookup(fr *frame, k value) (value, bool) {
 
 func (m *omap) insert(fr *frame, k, v value) {
 	in := fr.i
+	m.hbWrite(fr)
 	if e := m.find(fr, k); e != nil {
 		old := e.val
 		in.logUndo(func() { e.val = old })
@@ -757,6 +772,7 @@ func (m *omap) delete(fr *frame, k value) {
 		return
 	}
 	in := fr.i
+	m.hbWrite(fr)
 	e := m.find(fr, k)
 	if e == nil {
 		return
